@@ -120,3 +120,46 @@ v('c12-lost-advance', ['C12'], CS, "            result.push(c, d);\n            
 v('c12-loop-cond', ['C12'], CS, "while triple1.2 <= MAX_CHAR || triple2.2 <= MAX_CHAR {", "while triple1.2 <= MAX_CHAR && triple2.2 <= MAX_CHAR {", 'C12.R1')
 v('c12-list-fold', ['C12'], CS, "        result = merge_partitions(&result, p)\n    }\n    result\n}", "        result = merge_partitions(p, p)\n    }\n    result\n}", 'C12.R2')
 v('c12-equal-case', ['C12'], CS, "            // a=c and b=d\n            result.push(a, b);\n            triple1 = next_interval(p1, i);\n            triple2 = next_interval(p2, j);", "            // a=c and b=d\n            result.push(a, b);\n            triple1 = next_interval(p1, i);", 'C12.R1')
+
+# ---- C03
+RX = 'src/regular_expressions.rs'
+v('c03-loop-shift', ['C03'], RX, "let e2 = self.mk_loop(e1, range.shift());", "let e2 = self.mk_loop(e1, range);", 'C03.R1/compute_derivative/arm:Loop')
+v('c03-concat-nullable', ['C03'], RX, """                let d1 = self.concat(d1, e2);
+                if e1.nullable {""", """                let d1 = self.concat(d1, e2);
+                if e2.nullable {""", 'C03.R1/compute_derivative/arm:Concat')
+v('c03-inter-union', ['C03'], RX, """                let d = self.deriv_list(&v[..], c);
+                self.inter_list(d)""", """                let d = self.deriv_list(&v[..], c);
+                self.union_list(d)""", 'C03.R1/compute_derivative/arm:Inter')
+v('c03-class-deriv-unchecked', ['C03'], RX, """        if e.valid_class_id(cid) {
+            Ok(self.cached_deriv(e, cid))
+        } else {
+            Err(Error::BadClassId)
+        }""", """        if e.valid_class_id(cid) || true {
+            Ok(self.cached_deriv(e, cid))
+        } else {
+            Err(Error::BadClassId)
+        }""", 'C03.R4/class_derivative')
+v('c03-deriv-class-concat', ['C03'], RX, """                if e1.nullable {
+                    rc(merge_partitions(&e1.deriv_class, &e2.deriv_class))
+                } else {
+                    e1.deriv_class.clone()
+                }""", """                if e1.nullable && false {
+                    rc(merge_partitions(&e1.deriv_class, &e2.deriv_class))
+                } else {
+                    e1.deriv_class.clone()
+                }""", 'C03.R2/uniformity/Concat')
+v('c03-cache-key', ['C03'], RX, "self.deriv_cache.insert(key, r);", "self.deriv_cache.insert(DerivKey(r, cid), r);", 'C03.R3/cached_deriv')
+v('c03-range-eps', ['C03'], RX, """                if r.contains(c) {
+                    self.epsilon
+                } else {
+                    self.empty
+                }""", """                if r.contains(c) {
+                    self.empty
+                } else {
+                    self.epsilon
+                }""", 'C03.R1/compute_derivative/arm:Range')
+v('c03-complement', ['C03'], RX, """                let d1 = self.deriv(e1, c);
+                self.complement(d1)""", """                let d1 = self.deriv(e1, c);
+                d1""", 'C03.R1/compute_derivative/arm:Complement')
+v('c03-deriv-class-of', ['C03'], RX, "        let cid = e.class_of_char(c);\n        self.cached_deriv(e, cid)", "        let cid = e.class_of_char(c + 1);\n        self.cached_deriv(e, cid)", 'C03.R3/deriv')
+v('c03-str-deriv', ['C03'], RX, "s.iter().fold(e, |r, &c| self.char_derivative(r, c))", "s.iter().fold(e, |r, &c| self.char_derivative(e, c))", 'C03.R6')
